@@ -918,6 +918,105 @@ Proof.
     rewrite (find_label_den _ _ _ _ _ _ Efl). ring.
 Qed.
 
+(* ================================================================== site exchange at the level of the whole operator *)
+Lemma resort_length (nprim : nat) (unsorted : bond) (last : outop R) : forall n i0 nb3,
+  resort R nprim n i0 unsorted last = Some nb3 -> length nb3 = n.
+Proof.
+  induction n as [|n IH]; intros i0 nb3 H; cbn [resort] in H; [inversion H; reflexivity|].
+  destruct (find_label R (nprim + i0) last) as [[i1 f]|]; [|discriminate].
+  destruct (resort R nprim n (S i0) unsorted last) as [rest|] eqn:Er; [|discriminate].
+  inversion H; subst. cbn [length]. f_equal. apply (IH _ _ Er).
+Qed.
+Lemma dchain_app (D : den) (b1 b2 : list bond) : dchain R D (b1 ++ b2) = dchain R (dchain R D b1) b2.
+Proof. revert D. induction b1 as [|b b1 IH]; intros D; cbn [app dchain]; [reflexivity|apply IH]. Qed.
+
+Definition swapped_at (o1 o2 k : nat) (D D' : den) : Prop :=
+  forall i w l, length w = k -> D' i (w ++ o1 :: o2 :: l) = D i (w ++ o2 :: o1 :: l).
+Lemma swapped_dnext o1 o2 k D D' b : swapped_at o1 o2 k D D' -> swapped_at o1 o2 (S k) (dnext R D b) (dnext R D' b).
+Proof.
+  intros H i w l Hw. destruct w as [|x w]; [discriminate|]. cbn [app dnext].
+  apply lsum_ext. intros [key f] _. cbn [fst snd]. unfold drow.
+  destruct key as [|a [|o' [|? ?]]]; try reflexivity.
+  destruct (Nat.eqb o' x); [|reflexivity]. rewrite H by (cbn [length] in Hw; lia). reflexivity.
+Qed.
+Lemma swapped_dchain o1 o2 post : forall k D D',
+  swapped_at o1 o2 k D D' -> swapped_at o1 o2 (k + length post) (dchain R D post) (dchain R D' post).
+Proof.
+  induction post as [|b post IH]; intros k D D' H; cbn [dchain length].
+  - rewrite Nat.add_0_r. assumption.
+  - replace (k + S (length post)) with (S k + length post) by lia. apply IH, swapped_dnext, H.
+Qed.
+
+(* try_swap_site on bonds (j, j+1, j+2) of an operator: the whole operator keeps its coefficient
+   function with the operators of the two exchanged sites in the new order *)
+Theorem swap_mpo_sound (nprim : nat) (pre post : list bond) (b2 b3 nb2 nb3 : bond) (ws : list (wit R)) :
+  swap_site R iszero nprim b2 b3 ws = Some (nb2, nb3) ->
+  sweep_ok ws (dedup R iszero (swap_table R nprim b2 b3)) ->
+  forall (spre spost : list nat) (o1 o2 : nat), length spost = length post ->
+    coeff R (pre ++ nb2 :: nb3 :: post) (spre ++ o2 :: o1 :: spost)
+    = coeff R (pre ++ b2 :: b3 :: post) (spre ++ o1 :: o2 :: spost).
+Proof.
+  intros Hs Hok spre spost o1 o2 Hlen. unfold coeff. rewrite !dchain_app. cbn [dchain].
+  rewrite !rev_app_distr. cbn [rev]. rewrite <- !app_assoc. cbn [app].
+  set (D1 := dchain R (D0 R) pre).
+  assert (H0 : swapped_at o1 o2 0 (dnext R (dnext R D1 b2) b3) (dnext R (dnext R D1 nb2) nb3)).
+  { intros i w l Hw. destruct w; [|discriminate]. cbn [app].
+    destruct (Nat.lt_ge_cases i (length b3)) as [Hi|Hi].
+    - apply (swap_sound nprim b2 b3 nb2 nb3 ws Hs Hok D1 i o1 o2 l Hi).
+    - assert (Hl : length nb3 = length b3).
+      { unfold swap_site in Hs. destruct (sweep R iszero ws (dedup R iszero (swap_table R nprim b2 b3))) as [bsl tf].
+        destruct bsl as [|x1 [|x2 [|[|x3 [|? ?]] [|? ?]]]]; try discriminate.
+        destruct (final_okb R iszero tf && Nat.eqb (length x2) (length b3)); [|discriminate].
+        destruct (resort R nprim (length b3) 0 x2 x3) as [r|] eqn:Er; [|discriminate].
+        inversion Hs; subst. apply (resort_length _ _ _ _ _ _ Er). }
+      cbn [dnext]. rewrite !nth_overflow by lia. reflexivity. }
+  pose proof (swapped_dchain o1 o2 post 0 _ _ H0) as H1. cbn [Nat.add] in H1.
+  apply (H1 0 (rev spost) (rev spre)). rewrite rev_length. assumption.
+Qed.
+
+(* ================================================================== the pivoted form  Gamma.P = q.r  *)
+Lemma index_of_nth k p : In k p -> nth (index_of k p) p 0 = k /\ index_of k p < length p.
+Proof.
+  induction p as [|x p IH]; intros H; [destruct H|]. cbn [index_of].
+  destruct (Nat.eqb_spec x k) as [->|Hne]; cbn [nth length]; [split; [reflexivity|lia]|].
+  destruct H as [H|H]; [contradiction|]. destruct (IH H) as [H1 H2]. split; [assumption|lia].
+Qed.
+Lemma in_enum_from_nth {A} (l : list A) (d : A) : forall n j c, In (j, c) (enum_from n l) -> n <= j < n + length l /\ c = nth (j - n) l d.
+Proof.
+  induction l as [|a l IH]; intros n j c H; cbn [enum_from] in H; [destruct H|].
+  destruct H as [H|H].
+  - inversion H; subst. rewrite Nat.sub_diag. cbn [length nth]. split; [lia|reflexivity].
+  - destruct (IH _ _ _ H) as [H1 H2]. cbn [length]. split; [lia|].
+    replace (j - n) with (S (j - S n)) by lia. cbn [nth]. assumption.
+Qed.
+Lemma mget_unpivot (r : mat R) (p : list nat) (n l j : nat) :
+  j < n -> mget R (unpivot R r p n) l j = mget R r l (index_of j p).
+Proof.
+  intros Hj. unfold mget, unpivot.
+  destruct (Nat.lt_ge_cases l (length r)) as [Hl|Hl].
+  - rewrite (nth_indep _ [] (map (fun k => nth (index_of k p) (@nil R) rO) (seq 0 n))) by (rewrite map_length; assumption).
+    rewrite (map_nth (fun rowl => map (fun k => nth (index_of k p) rowl rO) (seq 0 n)) r [] l).
+    rewrite (nth_indep _ rO (nth (index_of 0 p) (nth l r []) rO)) by (rewrite map_length, seq_length; assumption).
+    rewrite (map_nth (fun k => nth (index_of k p) (nth l r []) rO) (seq 0 n) 0 j).
+    rewrite seq_nth by assumption. reflexivity.
+  - rewrite (nth_overflow (map _ r)) by (rewrite map_length; assumption).
+    rewrite (nth_overflow r) by assumption.
+    transitivity (r0 R); [destruct j; reflexivity|destruct (index_of j p); reflexivity].
+Qed.
+(* Gamma[:, p] = q . r  with p onto the column positions  ==>  Gamma = q . r[:, argsort p] *)
+Theorem qr_pivoted_exact (t : table) (qrows qcols : list key) (q r : mat R) (p : list nat) (rank : nat) :
+  (forall k, k < length qcols -> In k p) ->
+  (forall i rkey m, In (i, rkey) (enum_from 0 qrows) -> m < length p ->
+     gamma R t rkey (nth (nth m p 0) qcols []) = lsum (seq 0 rank) (fun l => mget R q i l *! mget R r l m)) ->
+  qr_exact t qrows qcols q (unpivot R r p (length qcols)) rank.
+Proof.
+  intros Hp H i rkey j c Hi Hj.
+  destruct (in_enum_from_nth qcols [] _ _ _ Hj) as [Hjl Hc]. rewrite Nat.sub_0_r in Hc. cbn [Nat.add] in Hjl.
+  destruct (index_of_nth j p (Hp j (proj2 Hjl))) as [Hn Hm].
+  specialize (H i rkey (index_of j p) Hi Hm). rewrite Hn in H. rewrite Hc, H.
+  unfold qr_prod. apply lsum_ext. intros l _. rewrite mget_unpivot by lia. reflexivity.
+Qed.
+
 (* ================================================================== named forms used by Props/C01.v *)
 Theorem one_site_graph_sound (t : table) (rsel csel : list key) (D : den) l o r :
   NoDup rsel -> NoDup csel -> covers t rsel csel ->
